@@ -75,6 +75,7 @@ class Extractor:
         self.loop_stack: List[list] = []
         self.deepcopied = False
         self.calls = []
+        self.skips = []
         self.fan = None
         self.cross = None
 
@@ -138,6 +139,11 @@ class Extractor:
             return
         if isinstance(s, ast.If):
             # writers have no output-relevant branches; branches without string effects are skipped
+            if self.loop_stack:
+                for sub in ast.walk(s):
+                    if isinstance(sub, (ast.Continue, ast.Break, ast.Return)):
+                        self.skips.append((s.lineno, ast.unparse(s.test)[:60], type(sub).__name__.lower()))
+                        break
             for sub in ast.walk(s):
                 if isinstance(sub, ast.Call) and ast.unparse(sub.func).endswith(".write"):
                     raise Unsupported(f"line {s.lineno}: conditional output")
